@@ -42,6 +42,7 @@ static void ed_mul_naf_imp(ed_t r, const ed_t p, const bn_t k) {
 	int i, n;
 	int8_t naf[RLC_FP_BITS + 1];
 	ed_t t[1 << (RLC_WIDTH - 2)];
+	bn_t m, o;
 	size_t l;
 
 	if (bn_is_zero(k)) {
@@ -49,7 +50,12 @@ static void ed_mul_naf_imp(ed_t r, const ed_t p, const bn_t k) {
 		return;
 	}
 
+	bn_null(m);
+	bn_null(o);
+
 	RLC_TRY {
+		bn_new(m);
+		bn_new(o);
 		/* Prepare the precomputation table. */
 		for (i = 0; i < (1 << (RLC_WIDTH - 2)); i++) {
 			ed_null(t[i]);
@@ -58,9 +64,13 @@ static void ed_mul_naf_imp(ed_t r, const ed_t p, const bn_t k) {
 		/* Compute the precomputation table. */
 		ed_tab(t, p, RLC_WIDTH);
 
+		/* Reduce the scalar modulo the group order. */
+		ed_curve_get_ord(o);
+		bn_mod(m, k, o);
+
 		/* Compute the w-NAF representation of k. */
 		l = sizeof(naf);
-		bn_rec_naf(naf, &l, k, RLC_WIDTH);
+		bn_rec_naf(naf, &l, m, RLC_WIDTH);
 
 		ed_set_infty(r);
 		for (i = l - 1; i > 0; i--) {
@@ -90,9 +100,6 @@ static void ed_mul_naf_imp(ed_t r, const ed_t p, const bn_t k) {
 
 		/* Convert r to affine coordinates. */
 		ed_norm(r, r);
-		if (bn_sign(k) == RLC_NEG) {
-			ed_neg(r, r);
-		}
 	}
 	RLC_CATCH_ANY {
 		RLC_THROW(ERR_CAUGHT);
@@ -102,6 +109,8 @@ static void ed_mul_naf_imp(ed_t r, const ed_t p, const bn_t k) {
 		for (i = 0; i < (1 << (RLC_WIDTH - 2)); i++) {
 			ed_free(t[i]);
 		}
+		bn_free(m);
+		bn_free(o);
 	}
 }
 
@@ -110,16 +119,18 @@ static void ed_mul_naf_imp(ed_t r, const ed_t p, const bn_t k) {
 #if ED_MUL == LWREG || !defined(STRIP)
 
 static void ed_mul_reg_imp(ed_t r, const ed_t p, const bn_t k) {
-	bn_t _k;
-	int i, j, n;
+	bn_t _k, o;
+	int i, j, n, even;
 	int8_t s, reg[1 + RLC_CEIL(RLC_FP_BITS + 1, RLC_WIDTH - 1)];
 	ed_t t[1 << (RLC_WIDTH - 2)], u, v;
 	size_t l;
 
 	bn_null(_k);
+	bn_null(o);
 
 	RLC_TRY {
 		bn_new(_k);
+		bn_new(o);
 		ed_new(u);
 		ed_new(v);
 		/* Prepare the precomputation table. */
@@ -130,9 +141,12 @@ static void ed_mul_reg_imp(ed_t r, const ed_t p, const bn_t k) {
 		/* Compute the precomputation table. */
 		ed_tab(t, p, RLC_WIDTH);
 
-		/* Make a copy of the scalar for processing. */
+		/* Make a reduced copy of the scalar for processing. */
+		ed_curve_get_ord(o);
 		bn_abs(_k, k);
-		_k->dp[0] |= bn_is_even(_k);
+		bn_mod(_k, _k, o);
+		even = bn_is_even(_k);
+		_k->dp[0] |= even;
 
 		/* Compute the w-NAF representation of k. */
 		l = RLC_CEIL(RLC_FP_BITS + 1, RLC_WIDTH - 1) + 1;
@@ -166,11 +180,11 @@ static void ed_mul_reg_imp(ed_t r, const ed_t p, const bn_t k) {
 
 		/* t[0] has an unmodified copy of p. */
 		ed_sub(u, r, t[0]);
-		fp_copy_sec(r->x, u->x, bn_is_even(k));
-		fp_copy_sec(r->y, u->y, bn_is_even(k));
-		fp_copy_sec(r->z, u->z, bn_is_even(k));
+		fp_copy_sec(r->x, u->x, even);
+		fp_copy_sec(r->y, u->y, even);
+		fp_copy_sec(r->z, u->z, even);
 #if ED_ADD == EXTND
-		fp_copy_sec(r->t, u->t, bn_is_even(k));
+		fp_copy_sec(r->t, u->t, even);
 #endif
 		/* Convert r to affine coordinates. */
 		ed_norm(r, r);
@@ -189,6 +203,7 @@ static void ed_mul_reg_imp(ed_t r, const ed_t p, const bn_t k) {
 			ed_free(t[i]);
 		}
 		bn_free(_k);
+		bn_free(o);
 	}
 }
 
@@ -254,9 +269,12 @@ void ed_mul_basic(ed_t r, const ed_t p, const bn_t k) {
 void ed_mul_slide(ed_t r, const ed_t p, const bn_t k) {
 	ed_t t[1 << (RLC_WIDTH - 1)], q;
 	uint8_t win[RLC_FP_BITS + 1];
+	bn_t m, n;
 	size_t l;
 
 	ed_null(q);
+	bn_null(m);
+	bn_null(n);
 
 	if (bn_is_zero(k) || ed_is_infty(p)) {
 		ed_set_infty(r);
@@ -270,6 +288,8 @@ void ed_mul_slide(ed_t r, const ed_t p, const bn_t k) {
 		}
 
 		ed_new(q);
+		bn_new(m);
+		bn_new(n);
 
 		ed_copy(t[0], p);
 		ed_dbl(q, p);
@@ -277,6 +297,10 @@ void ed_mul_slide(ed_t r, const ed_t p, const bn_t k) {
 #if defined(EP_MIXED)
 		ed_norm(q, q);
 #endif
+
+		/* Reduce the scalar modulo the group order. */
+		ed_curve_get_ord(n);
+		bn_mod(m, k, n);
 
 		/* Create table. */
 		for (size_t i = 1; i < (1 << (RLC_WIDTH - 1)); i++) {
@@ -289,7 +313,7 @@ void ed_mul_slide(ed_t r, const ed_t p, const bn_t k) {
 
 		ed_set_infty(q);
 		l = RLC_FP_BITS + 1;
-		bn_rec_slw(win, &l, k, RLC_WIDTH);
+		bn_rec_slw(win, &l, m, RLC_WIDTH);
 		for (size_t i = 0; i < l; i++) {
 			if (win[i] == 0) {
 				ed_dbl(q, q);
@@ -302,9 +326,6 @@ void ed_mul_slide(ed_t r, const ed_t p, const bn_t k) {
 		}
 
 		ed_norm(r, q);
-		if (bn_sign(k) == RLC_NEG) {
-			ed_neg(r, r);
-		}
 	}
 	RLC_CATCH_ANY {
 		RLC_THROW(ERR_CAUGHT);
@@ -314,6 +335,8 @@ void ed_mul_slide(ed_t r, const ed_t p, const bn_t k) {
 			ed_free(t[i]);
 		}
 		ed_free(q);
+		bn_free(m);
+		bn_free(n);
 	}
 }
 
